@@ -157,6 +157,17 @@ class C03(L1Prop):
             ops += ["inst 0", "dumpall", "walk 1", "walk 2"]
             out.append(Case(f"c03-inst-{j}", ops, {"inst": True, "only": "sqlite", "group": "instances", "sched": [], "cmode": "multi"}, mode="http"))
             k += 1
+        # free-running overlap with nothing between the Server and the backend (no wrapper, no
+        # scheduler): streams of AddVersion from several instances against a stream of AddSnapshot and
+        # of reads, all for one client.  Decided afterwards, one at a time: no request was answered with
+        # an error within the lock-wait budget, no parent accepted twice, the stored chain is exactly
+        # the acknowledged versions.
+        for j in range(sizes(tier, 4, 24)):
+            nv = rng.randint(0, 3)
+            ops = ["raw", "ensure 1"] + [f"av 1 {'nil' if i == 0 else 'latest:1'} b:{i},{j}" for i in range(nv)]
+            ops += [f"race 1 {rng.choice([1, 2, 2, 3])} {rng.choice([60, 120, 200])}", "dumpall"]
+            out.append(Case(f"c03-race-{j}", ops, {"inst": True, "race": True, "group": "race", "sched": [], "cmode": "multi"}))
+            k += 1
         triples = [("AVnew", "ASnewP", "AVnewP"), ("AVnew", "AVnew", "GCVnew"), ("AVnewP", "ASnewP", "GSnew"),
                    ("AVlatest", "AVlatest", "ASlatest"), ("AVlatest", "GCVlatest", "GS"), ("AVnew", "ASnewNil", "AVnew")]
         nsch = sizes(tier, 12, 300)
@@ -172,7 +183,8 @@ class C03(L1Prop):
     def normalize(self, trace):
         # the scheduler's notes (blocked / LOCK-VIOLATION / HANG) are read by the oracle; the model
         # has nothing to say about them
-        return [(o, ri, ri if o.startswith("csched") else rm) for (o, ri, rm) in trace]
+        race = any(o.startswith("race ") for (o, ri, rm) in trace)
+        return [(o, ri, ri if (o.startswith("csched") or race) else rm) for (o, ri, rm) in trace]
     def relevant(self, i, trace):
         # correspondence: the extracted model runs the SAME transaction schedule (ConcRig.rig_results,
         # an instance of Conc.crun by ConcRigProps.rig_run_is_crun) and must give every request the
@@ -186,6 +198,18 @@ class C03(L1Prop):
         return None, 0
     def oracle(self, case, trace, backend):
         fails = []
+        if case.meta.get("race"):
+            for (o, ri, rm) in trace:
+                if o.startswith("race "):
+                    kv = dict(x.split("=", 1) for x in ri.split()[1:])
+                    if kv["fast_errors"] != "0":
+                        fails.append(f"{kv['fast_errors']} requests were answered with an error well inside the lock-wait budget merely because other requests overlapped: {kv['first']}")
+                    if kv["parents_twice"] != "0":
+                        fails.append(f"{kv['parents_twice']} parents were accepted twice by overlapping AddVersion requests")
+                    if kv["orphans"] != "0" or kv["unacknowledged_on_chain"] != "0" or kv["walk"] != "ok":
+                        fails.append(f"after the overlap the stored chain is not the acknowledged versions: {kv['orphans']} accepted versions are not on it, "
+                                     f"{kv['unacknowledged_on_chain']} versions on it were never acknowledged, walk {kv['walk']}")
+            return [f + f" (free-running streams `{[o for (o, _, _) in trace if o.startswith('race ')]}`, {backend})" for f in fails]
         if case.meta.get("inst"):
             # one-at-a-time by construction: every AddVersion must be a compare-and-append on the
             # state the directory holds, whichever instance serves it; never a 5xx
